@@ -2,6 +2,7 @@ SPECIFICATION Spec
 CONSTANTS MaxDisc = 2
  MaxVer = 3
  MaxWaits = 3
+ MaxBrowse = 2
  Defects = {"staleReannounce", "shutdownUndone"}
  EmitMode = "none"
 VIEW View
